@@ -440,6 +440,7 @@ class Built:
 
         def effect(value):
             log.hit("effect", pid, canon(value))
+            return ("returned-by-effect", pid)  # (whatever an effect returns is nobody's business)
 
         return effect
 
